@@ -257,14 +257,16 @@ fn parse_mantissa_case(ilen: usize, flen: usize, z: usize, max_digits: usize) {
     // leading fraction zeros are CONCRETE bytes and the first significant fraction digit of a
     // number without integer part is the concrete digit '7': symbolic execution then follows
     // one control path through the zero-skipping loop (all other digits stay symbolic)
+    // `z` concrete leading zeros of the fraction followed by the concrete digit '7' (for ilen > 0 these
+    // zeros are ordinary significant digits; z == 99 means: leave the fraction fully symbolic)
     let mut k = 0;
     while k < 40 {
-        if ilen == 0 && k < z && k < flen {
+        if (ilen == 0 || z != 99) && z != 99 && k < z && k < flen {
             frac[k] = b'0';
         }
         k += 1;
     }
-    if ilen == 0 && z < flen {
+    if z != 99 && z < flen && (ilen == 0 || z > 0) {
         frac[z] = b'7';
     }
     unsafe {
@@ -324,6 +326,8 @@ pmant!(pslow_pmant_i0_f3_z3_all, 0, 3, 3, 114);
 pmant!(pslow_pmant_i2_f3_all, 2, 3, 0, 114);
 pmant!(pslow_pmant_i20_f0_all, 20, 0, 0, 769);
 pmant!(pslow_pmant_i19_f2_all, 19, 2, 0, 769);
+// a 19-digit integer part (exactly one full chunk) followed by a fraction that starts with a concrete zero
+pmant!(pslow_pmant_i19_f3_lead0, 19, 3, 1, 769);
 pmant!(pslow_pmant_i5_f5_m3, 5, 5, 0, 3);
 pmant!(pslow_pmant_i2_f5_m4, 2, 5, 0, 4);
 pmant!(pslow_pmant_i2_f5_m7, 2, 5, 0, 7);
@@ -489,7 +493,8 @@ macro_rules! negative_plan {
                 } else if binary_exp < 0 {
                     assert!(NP_N == k + 1 && NP_REC[k] == (d, 2, (-binary_exp) as u32), "P-SLOW negative binary exponent: the digits scaled by 2^(-binary_exp)");
                 } else {
-                    assert!(NP_N == k, "P-SLOW equal scales: no power of two applied");
+                    // equal scales: nothing more, or a (harmless) multiplication by 2^0
+                    assert!(NP_N == k || (NP_N == k + 1 && NP_REC[k].1 == 2 && NP_REC[k].2 == 0), "P-SLOW equal scales: no power of two applied");
                 }
             }
             // the recorder left both integers unscaled: the comparison seen by the code is d ? theor
